@@ -389,7 +389,7 @@ func SpecHasHeader(lines []string) bool {
 }
 
 //@ contract checkStandardHeader
-//@   rtc tokens "##! Please refer to the documentation at" "##! https://coreruleset.org/docs/development/regex_assembly/." "x" " "
+//@   rtc tokens "##! Please refer to the documentation at" "##! https://coreruleset.org/docs/development/regex_assembly/." "x" " " ""
 //@   tags C09
 //@   opt encoding seq
 //@   results r
@@ -596,11 +596,12 @@ func SpecRoot(start string) string {
 //@   tags C08 C16 C12 C11
 //@   results r
 //@   checks[C12,C11] the-assembled-regex-is-returned-as-it-is: called(Run) && r == resultOf(Run, 0)
+//@   checks[C16] an-assembler-error-is-fatal: called(Run) && resultOf(Run, 1) == nil
 //@   checks[C18,C04] the-resolved-root-is-used: ((called(context.New) && argOf(context.New, 0) == string(rootValues.workingDirectory) && argOf(context.New, 1) == string(rootValues.configurationFileName)) || (called(NewWithConfiguration) && argOf(NewWithConfiguration, 0) == string(rootValues.workingDirectory) && called(configuration.New) && argOf(configuration.New, 0) == string(rootValues.workingDirectory)+"/regex-assembly" && argOf(configuration.New, 1) == string(rootValues.configurationFileName) && argOf(NewWithConfiguration, 1) == resultOf(configuration.New, 0)))
 
 // ---- C17: no reader that may return part of its input without an error is used by the
 // line-oriented commands (the scanners are covered by the scan-complete obligations)
-//@ directive[C17] no-effect cmd.createGenerateCommand partialread
+//@ directive[C17,C03] no-effect cmd.createGenerateCommand partialread
 //@ directive[C17] no-effect cmd.createUpdateCommand partialread
 //@ directive[C17] no-effect cmd.createCompareCommand partialread
 //@ directive[C17] no-effect cmd.createFormatCommand partialread
@@ -675,6 +676,7 @@ func OpaqueGlob(pattern string) []string { m, _ := filepath.Glob(pattern); retur
 //@   results r
 //@   modifies fsWrites
 //@   checks[C08] one-file-never-stops-the-walk: implies(called(processFile), r == nil)
+//@   checks[C08,C16] the-walk-is-never-cut-short: implies(err == nil, r == nil)
 //@   checks[C08,C15] only-ra-files: implies(called(processFile), resultOf(Ext, 0) == ".ra" && argOf(processFile, 0) == filePath && argOf(processFile, 2) == checkOnly)
 //@   checks[C16,C09] a-failure-is-never-forgotten: implies(old(failed), failed)
 //@   checks[C16,C09] a-failure-is-recorded: implies(called(processFile) && resultOf(processFile, 0) != nil, failed)
@@ -682,10 +684,10 @@ func OpaqueGlob(pattern string) []string { m, _ := filepath.Glob(pattern); retur
 // ---- C18: generate hands the assembler exactly the bytes it read - the file's or stdin's -
 // so a file argument and the same bytes on stdin cannot give different results
 //@ contract createGenerateCommand#1
-//@   tags C18 C02 C04
+//@   tags C18 C02 C04 C03 C17
 //@   checks[C18] file-bytes-reach-the-assembler-unchanged: implies(called(Run) && called(ReadFile), argOf(Run, 0) == lastRead())
 //@   checks[C18] stdin-bytes-reach-the-assembler-unchanged: implies(called(Run) && called(ReadAll), argOf(Run, 0) == resultOf(ReadAll, 0))
-//@   checks[C18] one-source: implies(called(Run), called(ReadFile) != called(ReadAll))
+//@   checks[C18,C03,C17] one-source: implies(called(Run), called(ReadFile) != called(ReadAll))
 //@   checks[C18] the-resolved-file-is-read: implies(called(ReadFile), argOf(ReadFile, 0) == OpaquePathJoin2(resultOf(AssemblyDir, 0), ruleValues.fileName))
 //@   checks[C18,C04] the-resolved-root-is-used: ((called(context.New) && argOf(context.New, 0) == string(rootValues.workingDirectory) && argOf(context.New, 1) == string(rootValues.configurationFileName)) || (called(NewWithConfiguration) && argOf(NewWithConfiguration, 0) == string(rootValues.workingDirectory) && called(configuration.New) && argOf(configuration.New, 0) == string(rootValues.workingDirectory)+"/regex-assembly" && argOf(configuration.New, 1) == string(rootValues.configurationFileName) && argOf(NewWithConfiguration, 1) == resultOf(configuration.New, 0)))
 //@   checks[C02,C18] the-result-is-printed-verbatim: implies(called(Run) && resultOf(Run, 1) == nil, called(WriteString) && argOf(WriteString, 0) == resultOf(Run, 0))
@@ -699,6 +701,7 @@ func OpaqueGlob(pattern string) []string { m, _ := filepath.Glob(pattern); retur
 //@   modifies fsWrites
 //@   checks[C16,C09] single-file-verdict-is-returned: implies(called(processFile), r == resultOf(processFile, 0))
 //@   checks[C18] the-resolved-root-is-used: ((called(context.New) && argOf(context.New, 0) == string(rootValues.workingDirectory) && argOf(context.New, 1) == string(rootValues.configurationFileName)) || (called(NewWithConfiguration) && argOf(NewWithConfiguration, 0) == string(rootValues.workingDirectory) && called(configuration.New) && argOf(configuration.New, 0) == string(rootValues.workingDirectory)+"/regex-assembly" && argOf(configuration.New, 1) == string(rootValues.configurationFileName) && argOf(NewWithConfiguration, 1) == resultOf(configuration.New, 0)))
+//@   checks[C15,C18] formats-only-below-regex-assembly: implies(called(processFile) && !called(AssemblyDir), argOf(processFile, 0) == OpaquePathJoin2(resultOf(IncludesDir, 0), iteS(resultOf(Ext, 0) == "", args[0]+".ra", args[0]))) && implies(called(processFile) && called(AssemblyDir), argOf(processFile, 0) == OpaquePathJoin2(resultOf(AssemblyDir, 0), ruleValues.fileName))
 //@   checks[C18] only-a-missing-extension-is-completed: implies(called(parseRuleId), argOf(parseRuleId, 0) == iteS(resultOf(Ext, 0) == "", args[0]+".ra", args[0]))
 //@   checks[C15,C09] check-mode-is-handed-on: implies(called(processFile), argOf(processFile, 2) == checkOnly) && implies(called(processAll), argOf(processAll, 1) == checkOnly)
 //@   checks[C16,C09] all-files-verdict-is-returned: implies(called(processAll), r == resultOf(processAll, 0))
@@ -724,11 +727,11 @@ func OpaqueGlob(pattern string) []string { m, _ := filepath.Glob(pattern); retur
 //@   checks[C12,C16] a-difference-fails-the-github-run: implies(processAll && failed && rootValues.output == gitHub, r != nil)
 
 //@ contract performUpdate
-//@   tags C11 C12 C18 C15 C08
+//@   tags C11 C12 C18 C15 C08 C16
 //@   opt trust-pre processRule/id-shape
 //@   modifies fsWrites
 //@   checks[C15,C08] walks-the-assembly-directory: implies(processAll, called(WalkDir) && argOf(WalkDir, 0) == resultOf(AssemblyDir, 0))
-//@   checks[C11,C12,C18] single-rule-uses-the-parsed-values: implies(!processAll, called(processRule) && argOf(processRule, 0) == ruleValues.id && argOf(processRule, 1) == ruleValues.chainOffset && argOf(processRule, 2) == OpaquePathJoin2(resultOf(AssemblyDir, 0), ruleValues.fileName))
+//@   checks[C11,C12,C18,C16] single-rule-uses-the-parsed-values: implies(!processAll, called(processRule) && argOf(processRule, 0) == ruleValues.id && argOf(processRule, 1) == ruleValues.chainOffset && argOf(processRule, 2) == OpaquePathJoin2(resultOf(AssemblyDir, 0), ruleValues.fileName))
 
 //@ contract createCompareCommand#2
 //@   tags C12 C16 C18
